@@ -1,9 +1,9 @@
-// statsinstr copies /repo/internal/pkg/stats into a scratch package and instruments it at statement level:
+// stmtinstr copies a Zeno package into a scratch package and instruments it at statement level:
 //   - a simsync.Yield() before every statement of every function body,
 //   - read-modify-write on struct fields / map elements that is not an atomic call becomes load; Yield; store,
 //   - sync.Mutex / sync.RWMutex become simsync.Mutex.
 //
-// usage: statsinstr <src dir> <dst dir>
+// usage: stmtinstr <src dir> <dst dir> <package name>
 package main
 
 import (
@@ -216,11 +216,11 @@ func instrumentStmt(fset *token.FileSet, s ast.Stmt) {
 }
 
 func main() {
-	if len(os.Args) != 3 {
-		fmt.Fprintln(os.Stderr, "usage: statsinstr <src dir> <dst dir>")
+	if len(os.Args) != 4 {
+		fmt.Fprintln(os.Stderr, "usage: stmtinstr <src dir> <dst dir> <package name>")
 		os.Exit(2)
 	}
-	src, dst := os.Args[1], os.Args[2]
+	src, dst, pkg := os.Args[1], os.Args[2], os.Args[3]
 	os.MkdirAll(dst, 0o755)
 	ents, err := os.ReadDir(src)
 	if err != nil {
@@ -239,7 +239,7 @@ func main() {
 			fmt.Fprintln(os.Stderr, err)
 			os.Exit(2)
 		}
-		f.Name.Name = "statsx"
+		f.Name.Name = pkg
 		f.Comments = nil // positions would be wrong after the rewrite
 		usedYield := false
 		for _, d := range f.Decls {
@@ -304,7 +304,7 @@ func main() {
 			}
 		}
 		var buf bytes.Buffer
-		buf.WriteString("// Code generated by statsinstr from /repo/internal/pkg/stats/" + name + "; DO NOT EDIT.\n\n")
+		buf.WriteString("// Code generated by stmtinstr from " + filepath.Join(src, name) + "; DO NOT EDIT.\n\n")
 		if err := (&printer.Config{Mode: printer.UseSpaces | printer.TabIndent, Tabwidth: 8}).Fprint(&buf, fset, f); err != nil {
 			fmt.Fprintln(os.Stderr, name, err)
 			os.Exit(2)
@@ -322,7 +322,7 @@ func main() {
 		keep[name] = true
 	}
 	// accessors for the oracle (totals are unexported in the original package)
-	extra := `// Code generated by statsinstr; DO NOT EDIT.
+	extra := `// Code generated by stmtinstr; DO NOT EDIT.
 
 package statsx
 
@@ -346,10 +346,19 @@ func XReinit() {
 	_ = extra
 	extra2 := strings.Replace(extra, "doOnce = *new(syncOnce)", "doOnce = sync.Once{}", 1)
 	extra2 = strings.Replace(extra2, "package statsx\n", "package statsx\n\nimport \"sync\"\n", 1)
-	tmp := filepath.Join(dst, ".zz_export.go.tmp")
-	os.WriteFile(tmp, []byte(extra2), 0o644)
-	os.Rename(tmp, filepath.Join(dst, "zz_export.go"))
-	keep["zz_export.go"] = true
+	if pkg == "pausex" {
+		src := "// Code generated by stmtinstr; DO NOT EDIT.\n\npackage pausex\n\n// XReset gives every simulation iteration a fresh manager.\nfunc XReset() { manager = &pauseManager{} }\n"
+		tmp := filepath.Join(dst, ".zz_export.go.tmp")
+		os.WriteFile(tmp, []byte(src), 0o644)
+		os.Rename(tmp, filepath.Join(dst, "zz_export.go"))
+		keep["zz_export.go"] = true
+	}
+	if pkg == "statsx" {
+		tmp := filepath.Join(dst, ".zz_export.go.tmp")
+		os.WriteFile(tmp, []byte(extra2), 0o644)
+		os.Rename(tmp, filepath.Join(dst, "zz_export.go"))
+		keep["zz_export.go"] = true
+	}
 	// remove stale files
 	old, _ := os.ReadDir(dst)
 	for _, e := range old {
